@@ -6,8 +6,9 @@
         the check runs the real algorithms and feeds their outputs to these checkers;
     (2) model algorithms (closure/BFS reachability, Kahn, Bellman-Ford as transcribed) meet them. *)
 From Coq Require Export ZArith List Bool Permutation.
-From GV Require Export Algo.Spec Algo.Cert Algo.Run.
-From GV Require Import Algo.ProofsBase Algo.ProofsPath Algo.ProofsMsf Algo.ProofsFlow.
+From GV Require Export Algo.Spec Algo.Cert Algo.Model Algo.Run.
+From GV Require Import Algo.ProofsBase Algo.ProofsPath Algo.ProofsMsf Algo.ProofsFlow Algo.ProofsModel Algo.ProofsDijkstra.
+Import ListNotations.
 Open Scope Z_scope.
 
 (** ** shortest paths *)
@@ -122,3 +123,84 @@ Print Assumptions weak_duality.
 Theorem flow_cert_sound : forall g s t fl val, flow_cert g s t fl val = true -> maxflow_spec g s t val.
 Proof. exact flow_cert_sound_l. Qed.
 Print Assumptions flow_cert_sound.
+
+(** ** model algorithms *)
+(** closure/BFS reachability with |nodes| rounds visits exactly the reachable set *)
+Theorem reach_model_correct : forall g s, wf g -> In s (nodes g) -> forall v, In v (reach_model g s) <-> reachable g s v.
+Proof. exact reach_model_correct_l. Qed.
+Print Assumptions reach_model_correct.
+
+(** the traversal checker is also complete: it accepts every duplicate-free list of exactly the reachable nodes *)
+Theorem reach_cert_complete : forall g s l, wfb g = true -> In s (nodes g) ->
+  (NoDup l /\ forall v, In v l <-> reachable g s v) -> nodupb l = true -> reach_cert g s l = true.
+Proof. exact reach_cert_complete_l. Qed.
+Print Assumptions reach_cert_complete.
+
+Theorem short_walk : forall g s v, wf g -> In s (nodes g) -> reachable g s v ->
+  exists p, walk g s p v /\ (length p <= length (nodes g) - 1)%nat.
+Proof. exact short_walk_l. Qed.
+Print Assumptions short_walk.
+
+(** Bellman-Ford as transcribed (n-1 rounds, early exit, negative-cycle pass): whenever it does not
+    flag a negative cycle its distances are the shortest-path distances and there is none.
+    (The converse -- a flag implies a reachable negative cycle -- is not proved for the model;
+    the check establishes it per run through [bf_cert] with an explicit cycle.) *)
+Theorem bf_model_sound_partial : forall g s d p, wf g -> In s (nodes g) ->
+  bf_model g s = (d, p, false) -> sssp_spec g s (lookup d) /\ ~ neg_cycle_from g s.
+Proof. intros g s d p Hwf Hs. apply (bf_model_sound_l g s Hwf Hs). Qed.
+Print Assumptions bf_model_sound_partial.
+
+(** Dijkstra as transcribed (heap with lazy deletion, re-insertion on strict improvement): whenever the
+    loop ends (heap empty within the fuel) the distances are the shortest-path distances -- for any
+    weights, whatever entry of minimal distance is popped.  Partial: that the loop ends within
+    [dij_fuel] pops when the weights are non-negative is not proved (the run checks it). *)
+Theorem dijkstra_model_sound_partial : forall g s fuel st, In s (nodes g) -> dijkstra_model g s fuel = Some st ->
+  sssp_spec g s (lookup (dd st)) /\ ~ neg_cycle_from g s.
+Proof. intros g s fuel st. apply (dijkstra_model_sound_l g s fuel st). Qed.
+Print Assumptions dijkstra_model_sound_partial.
+
+(** Kruskal as implemented (first edge per node pair only) does not return a minimum forest: finding C19-K1 *)
+Theorem kruskal_as_implemented_refuted : exists g, wf g /\ k_parallel_diffw g = true /\ ~ msf_spec g (kruskal_model g).
+Proof. exact kruskal_model_refuted_l. Qed.
+Print Assumptions kruskal_as_implemented_refuted.
+
+(** ** non-vacuity: the checkers accept non-trivial instances, the hypotheses are satisfiable *)
+(** zero-weight cycle 1<->2, parallel edges 0->1, unreachable node 3, self-loop *)
+Definition ex_g : graph := mkG [0; 1; 2; 3] [mkE 0 1 0 4; mkE 0 1 1 2; mkE 1 2 2 0; mkE 2 1 3 0; mkE 2 2 4 1; mkE 3 0 5 1].
+Example nv_sssp : sssp_cert ex_g 0 [(0, 0); (1, 2); (2, 2)] [[0]; [0; 1]; [0; 1; 2]] = true
+                  /\ pred_cert ex_g 0 [(0, 0); (1, 2); (2, 2)] [(1, 0); (2, 1)] = true
+                  /\ pair_cert ex_g 0 2 [(0, 0); (1, 2); (2, 2)] [[0]; [0; 1]; [0; 1; 2]] (Some (2, [0; 1; 2])) = true
+                  /\ pair_cert ex_g 0 3 [(0, 0); (1, 2); (2, 2)] [[0]; [0; 1]; [0; 1; 2]] None = true.
+Proof. vm_compute. repeat split. Qed.
+(** a negative edge without negative cycle; and a reachable negative cycle *)
+Definition ex_neg : graph := mkG [0; 1; 2] [mkE 0 1 0 2; mkE 1 2 1 (-3); mkE 2 0 2 2; mkE 0 2 3 4].
+Definition ex_negcyc : graph := mkG [0; 1; 2] [mkE 0 1 0 1; mkE 1 2 1 (-3); mkE 2 1 2 1].
+Example nv_bf : bf_model ex_neg 0 = ([(2, -1); (1, 2); (0, 0)], [(2, 1); (1, 0)], false)
+                /\ bf_cert ex_neg 0 [(0, 0); (1, 2); (2, -1)] [[0]; [0; 1]; [0; 1; 2]] false ([], []) = true
+                /\ snd (bf_model ex_negcyc 0) = true
+                /\ bf_cert ex_negcyc 0 [] [] true ([0; 1], [1; 2; 1]) = true.
+Proof. vm_compute. repeat split. Qed.
+Example nv_dijkstra : option_map dd (dijkstra_model ex_g 0 (dij_fuel ex_g)) = Some [(2, 2); (1, 2); (1, 4); (0, 0)]
+                      /\ chk_dijkstra ex_g 0 [(0, 0); (1, 2); (2, 2)] = true.
+Proof. vm_compute. repeat split. Qed.
+Example nv_components : wcc_cert ex_g [(0, 7); (1, 7); (2, 7); (3, 7)] = true
+                        /\ scc_cert ex_g [(0, 2); (1, 0); (2, 0); (3, 3)] = true
+                        /\ topo_cert ex_g None = true
+                        /\ topo_cert (mkG [0; 1; 2] [mkE 0 1 0 1; mkE 0 2 1 1; mkE 2 1 2 1]) (Some [0; 2; 1]) = true
+                        /\ reach_cert ex_g 0 [0; 1; 2] = true.
+Proof. vm_compute. repeat split. Qed.
+(** a minimum spanning forest with a tie and a parallel pair; the heavier parallel edge is rejected *)
+Example nv_msf : msf_cert ex_g [mkE 0 1 1 2; mkE 1 2 2 0; mkE 3 0 5 1] = true
+                 /\ msf_cert ex_g [mkE 0 1 0 4; mkE 1 2 2 0; mkE 3 0 5 1] = false
+                 /\ sub_forest ex_g [mkE 0 1 1 2; mkE 2 1 3 0; mkE 3 0 5 1].
+Proof.
+  split; [vm_compute; reflexivity|]. split; [vm_compute; reflexivity|].
+  apply (msf_cert_sound_l ex_g). vm_compute. reflexivity.
+Qed.
+(** a maximum flow of value 3 with its saturated cut; a non-maximum flow is rejected *)
+Definition ex_net : graph := mkG [0; 1; 2; 3] [mkE 0 1 0 2; mkE 0 2 1 2; mkE 1 3 2 1; mkE 2 3 3 2; mkE 1 2 4 1; mkE 1 2 5 1].
+Example nv_flow : flow_cert ex_net 0 3 [(0, 1, 2); (0, 2, 1); (1, 3, 1); (1, 2, 1); (2, 3, 2)] 3 = true
+                  /\ flow_cert ex_net 0 3 [(0, 1, 1); (1, 3, 1)] 1 = false.
+Proof. vm_compute. repeat split. Qed.
+Example nv_wf : wf ex_g /\ wf ex_net /\ wf ex_neg.
+Proof. split; [|split]; apply wfb_wf; vm_compute; reflexivity. Qed.
